@@ -323,7 +323,7 @@ Hint Resolve ps_setst : press.
 Lemma ps_retrying : forall t route idx r ns, preserves Rs (uts_retrying t route idx r ns).
 Proof. intros; unfold uts_retrying; walk. Qed.
 Hint Resolve ps_retrying : press.
-Lemma ps_completion : forall t route evt ts idx ns, preserves Rs (uts_completion ev t route evt ts idx ns).
+Lemma ps_completion : forall t route evt ts idx ns o0, preserves Rs (uts_completion ev t route evt ts idx ns o0).
 Proof. intros; unfold uts_completion; walk. Qed.
 Hint Resolve ps_completion : press.
 Lemma ps_queue : forall t route idx ts o n compl, preserves Rs (uts_queue ev t route idx ts o n compl).
@@ -623,7 +623,7 @@ Lemma pw_item : forall t route evt s0, preserves Rw (uts_item t route evt s0).
 Proof. intros; unfold uts_item; walk. Qed.
 Lemma pw_logfail : forall t evt, preserves Rw (uts_logfail t evt).
 Proof. intros; unfold uts_logfail; walk. Qed.
-Lemma pw_completion : forall t route evt ts idx ns, preserves Rw (uts_completion ev t route evt ts idx ns).
+Lemma pw_completion : forall t route evt ts idx ns o0, preserves Rw (uts_completion ev t route evt ts idx ns o0).
 Proof. intros; unfold uts_completion; walk. Qed.
 
 (* the quiet API operations on an initialised state *)
@@ -788,21 +788,27 @@ Definition Rgrow (c c' : cstate) : Prop :=
   length (sequence (c_ws c')) = length (sequence (c_ws c)) /\
   (forall i r, nth_error (sequence (c_ws c)) i = Some r ->
      exists r', nth_error (sequence (c_ws c')) i = Some r' /\ (r_status r <> None -> r_status r' <> None)) /\
-  (forall t r, present c t r -> present c' t r).
+  (forall t r, present c t r -> present c' t r) /\
+  (exists l, routes (c_ws c') = app (routes (c_ws c)) l).
 
 Lemma Rgrow_refl : forall c, Rgrow c c.
-Proof. intro c. repeat split; auto. intros i r H; exists r; auto. Qed.
+Proof.
+  intro c. split; [reflexivity|]. split; [reflexivity|]. split; [auto|]. split; [reflexivity|]. split; [lia|]. split; [lia|].
+  split; [reflexivity|]. split; [intros i r H; exists r; auto|]. split; [auto|]. exists []. symmetry; apply app_nil_r.
+Qed.
 Lemma Rgrow_trans : forall a b c, Rgrow a b -> Rgrow b c -> Rgrow a c.
 Proof.
-  intros a b c [G1 [S1 [I1 [T1 [O1 [C1 [L1 [Q1 P1]]]]]]]] [G2 [S2 [I2 [T2 [O2 [C2 [L2 [Q2 P2]]]]]]]].
+  intros a b c [G1 [S1 [I1 [T1 [O1 [C1 [L1 [Q1 [P1 [l1 X1]]]]]]]]]] [G2 [S2 [I2 [T2 [O2 [C2 [L2 [Q2 [P2 [l2 X2]]]]]]]]]].
   split; [congruence|]. split; [congruence|]. split; [auto|]. split; [congruence|]. split; [lia|]. split; [lia|].
-  split; [congruence|]. split; [|auto].
+  split; [congruence|]. split; [|split; [auto|exists (app l1 l2); rewrite X2, X1, app_assoc; reflexivity]].
   intros i r H. destruct (Q1 _ _ H) as [r1 [H1 A1]]. destruct (Q2 _ _ H1) as [r2 [H2 A2]]. exists r2; split; auto.
 Qed.
 
 Lemma Rw_Rst_Rgrow : forall c c', Rw c c' -> Rst c c' -> Rgrow c c'.
 Proof.
-  intros c c' [I [T [C [O [S [L Q]]]]]] [St [G Sp]]. unfold Rgrow, present, get_staged_task. rewrite St, C, O. repeat split; auto.
+  intros c c' [I [T [C [O [S [L Q]]]]]] [St [G Sp]]. unfold Rgrow, present, get_staged_task. rewrite St, C, O.
+  split; [exact G|]. split; [exact Sp|]. split; [exact I|]. split; [exact T|]. split; [lia|]. split; [lia|]. split; [exact L|].
+  split; [|split; [auto|exists []; symmetry; apply app_nil_r]].
   intros i r H. assert (Hl : i < length (sequence (c_ws c'))) by (rewrite L; apply nth_error_Some; congruence).
   destruct (nth_error (sequence (c_ws c')) i) as [r'|] eqn:E; [|apply nth_error_None in E; lia].
   exists r'; split; [reflexivity|]. destruct (Q _ _ E) as [r0 [H0 [_ [_ [_ A]]]]]. rewrite H in H0; inversion H0; subst; exact A.
@@ -854,8 +860,51 @@ Record static_ok (sp : wf_spec) (g : graph) : Prop := {
   so_spec : forall t, g_has_task g t = true -> spec_get_task sp t <> None;
   so_ref : forall e ts, In e (g_edges g) -> spec_get_task sp (e_src e) = Some ts -> e_ref e < length (ts_next ts);
   so_inert : graph_commands_inert g;
-  so_start : forall e, In e (g_edges g) -> is_engine_command (e_dst e) = true -> cmd_startable (e_dst e);
-  so_le1 : forall t, length (filter (fun e => is_engine_command (e_dst e)) (g_next_transitions g t)) <= 1 }.
+  so_start : forall e, In e (g_edges g) -> is_engine_command (e_dst e) = true -> cmd_startable (e_dst e) }.
+
+(* a followed edge keeps the route of its source (no new route is opened for it) *)
+Definition stays (c : cstate) (route : nat) (e : gedge) : bool :=
+  negb (spec_is_split_task (c_spec c) (e_dst e)) || g_in_cycle (c_graph c) (e_dst e) ||
+  match nth_error (routes (c_ws c)) route with
+  | Some old => existsb (trid_eqb (e_src e, e_key e)) old
+  | None => true
+  end.
+
+(* the edges of t to engine commands that keep the route lead to different commands: the commands queued by one
+   completion of (t, route) are then different (task, route) keys.  (Edges that open a route get one each.) *)
+Definition cmd_edges_on_route (c : cstate) (t : string) (route : nat) : list gedge :=
+  filter (fun e => is_engine_command (e_dst e) && stays c route e) (g_next_transitions (c_graph c) t).
+Definition cmd_routes_distinct (c : cstate) (t : string) (route : nat) : Prop :=
+  NoDup (map e_dst (cmd_edges_on_route c t route)).
+
+Lemma stays_mono : forall c c' route e, c_graph c' = c_graph c -> c_spec c' = c_spec c ->
+  (exists l, routes (c_ws c') = app (routes (c_ws c)) l) -> stays c' route e = true -> stays c route e = true.
+Proof.
+  intros c c' route e G S [l R] H. unfold stays in *. rewrite G, S, R in H.
+  destruct (negb (spec_is_split_task (c_spec c) (e_dst e)) || g_in_cycle (c_graph c) (e_dst e)); [reflexivity|]. simpl in *.
+  destruct (nth_error (routes (c_ws c)) route) as [old|] eqn:E; [|reflexivity].
+  rewrite nth_error_app1 in H by (apply nth_error_Some; congruence). rewrite E in H. exact H.
+Qed.
+
+Lemma NoDup_map_filter_mono : forall A B (f : A -> B) (P Q : A -> bool) l,
+  (forall x, Q x = true -> P x = true) -> NoDup (map f (filter P l)) -> NoDup (map f (filter Q l)).
+Proof.
+  intros A B f P Q l PQ; induction l as [|x l IH]; simpl; intro H; [constructor|].
+  assert (Sub : forall y, In y (map f (filter Q l)) -> In y (map f (filter P l))).
+  { intros y Hy. apply in_map_iff in Hy. destruct Hy as [z [<- Hz]]. apply filter_In in Hz. destruct Hz as [Hz1 Hz2].
+    apply in_map. apply filter_In. split; [exact Hz1|apply PQ; exact Hz2]. }
+  destruct (Q x) eqn:Eq.
+  - rewrite (PQ _ Eq) in H. simpl in *. inversion H; subst. constructor; [intro Hy; apply H2; apply Sub; exact Hy|apply IH; exact H3].
+  - destruct (P x); [simpl in H; inversion H; subst|]; apply IH; assumption.
+Qed.
+
+Lemma distinct_mono : forall c c' t route, c_graph c' = c_graph c -> c_spec c' = c_spec c ->
+  (exists l, routes (c_ws c') = app (routes (c_ws c)) l) -> cmd_routes_distinct c t route -> cmd_routes_distinct c' t route.
+Proof.
+  intros c c' t route G S R H. unfold cmd_routes_distinct, cmd_edges_on_route in *. rewrite G.
+  eapply NoDup_map_filter_mono; [|exact H]. intros e He. apply andb_prop in He. destruct He as [A B].
+  rewrite A. simpl. eapply stays_mono; eassumption.
+Qed.
 
 Section Transition.
 Variable ev : string -> dict -> evalres.
@@ -885,13 +934,17 @@ Proof. intros c l' [Wi Wp Ws Wr] H. constructor; simpl; auto. Qed.
 
 Lemma Rgrow_ws : forall c w',
   tasks w' = tasks (c_ws c) -> sequence w' = sequence (c_ws c) ->
-  length (routes (c_ws c)) <= length (routes w') -> length (contexts (c_ws c)) <= length (contexts w') ->
+  (exists l, routes w' = app (routes (c_ws c)) l) -> length (contexts (c_ws c)) <= length (contexts w') ->
   (forall t r, find (stg_matches t r) (staged (c_ws c)) <> None -> find (stg_matches t r) (staged w') <> None) ->
   Rgrow c (set_ws c w').
 Proof.
-  intros c w' T Q O C P. unfold Rgrow, present, get_staged_task; simpl. rewrite T, Q. repeat split; auto.
-  intros i r H; exists r; auto.
+  intros c w' T Q O C P. unfold Rgrow, present, get_staged_task; simpl. rewrite T, Q.
+  split; [reflexivity|]. split; [reflexivity|]. split; [auto|]. split; [reflexivity|].
+  split; [destruct O as [l ->]; rewrite app_length; lia|]. split; [exact C|]. split; [reflexivity|].
+  split; [intros i r H; exists r; auto|]. split; [exact P|exact O].
 Qed.
+Lemma routes_same : forall (l : list (list trid)), exists l0, l = app l l0.
+Proof. intro l; exists []; symmetry; apply app_nil_r. Qed.
 
 Lemma get_rec_ok : forall idx c, idx < length (sequence (c_ws c)) ->
   exists r, get_rec idx c = (c, Val r) /\ nth_error (sequence (c_ws c)) idx = Some r.
@@ -909,32 +962,39 @@ Qed.
 Lemma evaluate_route_wf : forall e route c c' res, evaluate_route e route c = (c', res) ->
   WF c -> route < length (routes (c_ws c)) ->
   WF c' /\ Rgrow c c' /\ (forall x, res = Exc x -> ~ internal_cls x) /\
-  (forall nr, res = Val nr -> nr < length (routes (c_ws c'))).
+  (forall nr, res = Val nr -> nr < length (routes (c_ws c')) /\
+     ((nr = route /\ stays c route e = true) \/ length (routes (c_ws c)) <= nr)).
 Proof.
   intros e route c c' res H Wc Hr. unfold evaluate_route in H.
   apply bind_inv in H. destruct H as [[c0 [cst [E0 H]]]|[x [E0 ->]]]; [|inversion E0]. inversion E0; subst c0 cst; clear E0.
-  assert (Same : (c', res) = (c, Val route) ->
-     WF c' /\ Rgrow c c' /\ (forall x, res = Exc x -> ~ internal_cls x) /\ (forall nr, res = Val nr -> nr < length (routes (c_ws c')))).
-  { intro E; inversion E; subst. split; [exact Wc|]. split; [apply Rgrow_refl|]. split; [discriminate|].
-    intros nr Hn; inversion Hn; subst; exact Hr. }
-  destruct (negb (spec_is_split_task (c_spec c) (e_dst e)) || g_in_cycle (c_graph c) (e_dst e)); [apply Same; symmetry; exact H|].
+  assert (Same : (c', res) = (c, Val route) -> stays c route e = true ->
+     WF c' /\ Rgrow c c' /\ (forall x, res = Exc x -> ~ internal_cls x) /\
+     (forall nr, res = Val nr -> nr < length (routes (c_ws c')) /\
+        ((nr = route /\ stays c route e = true) \/ length (routes (c_ws c)) <= nr))).
+  { intros E Hs; inversion E; subst. split; [exact Wc|]. split; [apply Rgrow_refl|]. split; [discriminate|].
+    intros nr Hn; inversion Hn; subst. split; [exact Hr|left; split; [reflexivity|exact Hs]]. }
+  destruct (negb (spec_is_split_task (c_spec c) (e_dst e)) || g_in_cycle (c_graph c) (e_dst e)) eqn:E1;
+    [apply Same; [symmetry; exact H|unfold stays; rewrite E1; reflexivity]|].
   destruct (nth_error (routes (c_ws c)) route) as [old|] eqn:Eo; [|apply nth_error_None in Eo; lia].
-  destruct (existsb (trid_eqb (e_src e, e_key e)) old); [apply Same; symmetry; exact H|].
+  destruct (existsb (trid_eqb (e_src e, e_key e)) old) eqn:E2;
+    [apply Same; [symmetry; exact H|unfold stays; rewrite E1, Eo, E2; reflexivity]|].
   unfold bind, modws, ret in H. inversion H; subst c' res; clear H.
   split; [apply WF_grow_lengths; simpl; auto; rewrite app_length; lia|].
-  split; [apply Rgrow_ws; simpl; auto; rewrite app_length; lia|]. split; [discriminate|].
-  intros nr Hn; inversion Hn; subst. simpl. rewrite app_length; simpl; lia.
+  split; [apply Rgrow_ws; simpl; auto; try apply routes_same; try (eexists; reflexivity); rewrite app_length; lia|]. split; [discriminate|].
+  intros nr Hn; inversion Hn; subst. simpl. rewrite app_length; simpl. split; [lia|right; lia].
 Qed.
 
-Definition pt_post (e : gedge) (c' : cstate) (res : option (string * nat) * option (string * nat)) : Prop :=
-  forall n rt, fst res = Some (n, rt) -> n = e_dst e /\ is_engine_command n = true /\ present c' n rt.
+Definition pt_post (route : nat) (e : gedge) (c c' : cstate) (res : option (string * nat) * option (string * nat)) : Prop :=
+  forall n rt, fst res = Some (n, rt) ->
+    n = e_dst e /\ is_engine_command n = true /\ present c' n rt /\ rt < length (routes (c_ws c')) /\
+    ((rt = route /\ stays c route e = true) \/ length (routes (c_ws c)) <= rt).
 
 Lemma process_transition_wf : forall t route idx ts ctx e c c' res,
   process_transition ev t route idx ts ctx e c = (c', res) ->
   WF c -> static_ok (c_spec c) (c_graph c) -> In e (g_next_transitions (c_graph c) t) ->
   spec_get_task (c_spec c) t = Some ts -> route < length (routes (c_ws c)) ->
   idx < length (sequence (c_ws c)) ->
-  WF c' /\ Rgrow c c' /\ (forall x, res = Exc x -> ~ internal_cls x) /\ (forall v, res = Val v -> pt_post e c' v).
+  WF c' /\ Rgrow c c' /\ (forall x, res = Exc x -> ~ internal_cls x) /\ (forall v, res = Val v -> pt_post route e c c' v).
 Proof.
   intros t route idx ts ctx e c c' res H Wc Hso Hin Hts Hroute Hidx. unfold process_transition in H.
   destruct (In_next_transitions _ _ _ Hin) as [Hedge Hsrc].
@@ -944,7 +1004,7 @@ Proof.
   { intros A c0 c1 m P1 P2 P3 W0 G0 r0 E. split; [eapply WF_Rw; [eapply P1; exact E|exact W0]|].
     split; [eapply Rgrow_trans; [exact G0|apply Rw_Rst_Rgrow; [eapply P1; exact E|eapply P2; exact E]]|].
     intros x ->. eapply P3; exact E. }
-  assert (NoCmd : forall cz (v : option (string * nat) * option (string * nat)), fst v = None -> pt_post e cz v)
+  assert (NoCmd : forall cz (v : option (string * nat) * option (string * nat)), fst v = None -> pt_post route e c cz v)
     by (intros cz v Hv n rt Hn; rewrite Hv in Hn; discriminate).
   set (tid := (e_dst e, e_key e)) in *.
   binv H c1 ok E1.
@@ -990,7 +1050,7 @@ Proof.
         - set (ca := set_ws c2 (ws_set_contexts (c_ws c2) (app (contexts (c_ws c2)) [kv :: nc]))).
           set (fo := fun r0 : trec => r_set_out r0 (Some (tid, length (contexts (c_ws c2))))).
           assert (Wa : WF ca) by (apply WF_grow_lengths; simpl; auto; rewrite app_length; lia).
-          assert (Ga : Rgrow c2 ca) by (apply Rgrow_ws; simpl; auto; rewrite app_length; lia).
+          assert (Ga : Rgrow c2 ca) by (apply Rgrow_ws; simpl; auto; try apply routes_same; try (eexists; reflexivity); rewrite app_length; lia).
           assert (Qb : Rw ca (set_ws ca (ws_update_rec (c_ws ca) idx fo))) by (apply Rw_update_rec; intro; repeat split; auto).
           exists (set_ws ca (ws_update_rec (c_ws ca) idx fo)), (app (r_in r) [length (contexts (c_ws c2))]).
           split; [eapply WF_Rw; [exact Qb|exact Wa]|].
@@ -1003,7 +1063,7 @@ Proof.
           apply in_app_or in Hi. destruct Hi as [Hi|[<-|[]]]; [specialize (B _ Hi); lia|lia]. }
       destruct Out as [c3 [out [W3 [G3 [Hout [Hroute3 Ek]]]]]]. rewrite Ek in H. clear Ek.
       binv H c4 nr E4.
-      { destruct (evaluate_route_wf _ _ _ _ _ E4 W3 Hroute3) as [W4 [G4 [_ Hnr]]]. specialize (Hnr nr eq_refl).
+      { destruct (evaluate_route_wf _ _ _ _ _ E4 W3 Hroute3) as [W4 [G4 [_ Hnr]]]. destruct (Hnr nr eq_refl) as [Hnr' Hkind]. clear Hnr. rename Hnr' into Hnr.
         assert (Hout4 : ctx_ok (c_ws c4) out) by (eapply ctx_ok_mono; [|exact Hout]; destruct G4 as [_ [_ [_ [_ [_ [C _]]]]]]; exact C).
         rewrite (bind_step _ _ _ _ _ _ _ (eq_refl : getws c4 = (c4, Val (c_ws c4)))) in H.
         (* staging *)
@@ -1032,14 +1092,14 @@ Proof.
               destruct Hs as [Hs|[s1 [Hs ->]]]; [apply (wf_stg _ W4); exact Hs|]. destruct (wf_stg _ W4 _ Hs) as [A [B1 B2]].
               simpl. split; [exact A|]. split; [apply in_or_app; left; exact B1|].
               intros i Hi. apply in_app_or in Hi. destruct Hi as [Hi|Hi]; [apply B2; exact Hi|apply (proj2 Hout4); apply Hsub; exact Hi].
-            + apply Rgrow_ws; simpl; auto. intros t0 r0 Hp. apply find_staged_update_present; [intro; split; reflexivity|exact Hp].
+            + apply Rgrow_ws; simpl; auto; try apply routes_same. intros t0 r0 Hp. apply find_staged_update_present; [intro; split; reflexivity|exact Hp].
             + unfold present, get_staged_task; simpl. apply find_staged_update_present; [intro; split; reflexivity|].
               unfold get_staged_task in Es. rewrite Es; discriminate.
           - eexists. split; [|split; [|split; [|intro k; unfold bind, modws; cbv beta iota; reflexivity]]].
             + apply WF_staged; [exact W4|]. intros s Hs. apply in_app_or in Hs.
               destruct Hs as [Hs|[<-|[]]]; [apply (wf_stg _ W4); exact Hs|]. simpl. split; [exact Hnr|].
               destruct out as [|o out0]; [destruct (proj1 Hout4)|exact Hout4].
-            + apply Rgrow_ws; simpl; auto. intros t0 r0 Hp. apply find_app_present; exact Hp.
+            + apply Rgrow_ws; simpl; auto; try apply routes_same. intros t0 r0 Hp. apply find_app_present; exact Hp.
             + unfold present, get_staged_task, ws_add_staged; simpl. apply find_app_new.
               unfold stg_matches, mk_staged; simpl. rewrite String.eqb_refl, Nat.eqb_refl; reflexivity. }
         destruct Stg as [c5 [W5 [G5 [P5 Ek]]]]. rewrite Ek in H. clear Ek.
@@ -1049,12 +1109,18 @@ Proof.
         assert (W6 : WF c6).
         { eapply WF_Rw; [|exact W5]. apply Rw_staged_update. intro; repeat split; reflexivity. }
         assert (G6 : Rgrow c5 c6).
-        { apply Rgrow_ws; simpl; auto. intros t0 r0 Hp. apply find_staged_update_present; [intro; split; reflexivity|exact Hp]. }
+        { apply Rgrow_ws; simpl; auto; try apply routes_same. intros t0 r0 Hp. apply find_staged_update_present; [intro; split; reflexivity|exact Hp]. }
         assert (Gall : Rgrow c c6) by (eapply Rgrow_trans; [exact G3|]; eapply Rgrow_trans; [exact G4|]; eapply Rgrow_trans; [exact G5|exact G6]).
-        assert (P6 : present c6 (e_dst e) nr) by (destruct G6 as [_ [_ [_ [_ [_ [_ [_ [_ P]]]]]]]]; apply P; exact P5).
+        assert (P6 : present c6 (e_dst e) nr) by (destruct G6 as [_ [_ [_ [_ [_ [_ [_ [_ [P _]]]]]]]]]; apply P; exact P5).
         destruct (is_engine_command (e_dst e)) eqn:Ecmd.
         - inversion H; subst c' res. split; [exact W6|]. split; [exact Gall|]. split; [discriminate|].
-          intros v Hv; inversion Hv; subst v. intros n rt Hn; simpl in Hn; inversion Hn; subst. repeat split; assumption.
+          intros v Hv; inversion Hv; subst v. intros n rt Hn; simpl in Hn; inversion Hn; subst.
+          split; [reflexivity|]. split; [exact Ecmd|]. split; [exact P6|].
+          split.
+          + assert (G46 : Rgrow c4 c6) by (eapply Rgrow_trans; [exact G5|exact G6]).
+            destruct G46 as [_ [_ [_ [_ [O46 _]]]]]. lia.
+          + destruct G3 as [Gg3 [Gs3 [_ [_ [O3 [_ [_ [_ [_ X3]]]]]]]]].
+            destruct Hkind as [[-> Hst]|Hge]; [left; split; [reflexivity|eapply stays_mono; eassumption]|right; lia].
         - match type of H with (if ?b then _ else _) _ = _ => destruct b end; inversion H; subst c' res;
             (split; [exact W6|]; split; [exact Gall|]; split; [discriminate|]; intros v Hv; inversion Hv; subst v; apply NoCmd; reflexivity). }
       { destruct (evaluate_route_wf _ _ _ _ _ E4 W3 Hroute3) as [W4 [G4 [N4 _]]].
@@ -1136,11 +1202,11 @@ Ltac binv H c1 a E :=
   apply bind_inv in H; destruct H as [[c1 [a [E H]]]|[?e [E ->]]].
 
 (* completion raises an internal class only when an abended with-items task is not staged *)
-Lemma completion_ni : forall t route evt ts idx new c c' x,
-  uts_completion ev t route evt ts idx new c = (c', Exc x) -> WF c -> idx < length (sequence (c_ws c)) ->
+Lemma completion_ni : forall t route evt ts idx new old c c' x,
+  uts_completion ev t route evt ts idx new old c = (c', Exc x) -> WF c -> idx < length (sequence (c_ws c)) ->
   (task_has_items ts = true -> status_in new ABENDED_STATUSES = true -> present c t route) -> ~ internal_cls x.
 Proof.
-  intros t route evt ts idx new c c' x H Wc Hidx Hp. unfold uts_completion in H.
+  intros t route evt ts idx new old c c' x H Wc Hidx Hp. unfold uts_completion in H.
   destruct (status_in new COMPLETED_STATUSES); [|inversion H].
   apply bind_inv in H; destruct H as [[c1 [u1 [E1 H]]]|[x0 [E1 Hx]]]; [|inversion Hx; subst x0; clear Hx].
   - assert (Q : Rw c c1).
@@ -1244,7 +1310,7 @@ Proof.
   binv H c3 compl E3.
   2: { split; [eapply WF_Rw; [eapply pw_completion; exact E3|exact W2]|]. split; [|discriminate].
        intros x Hx; inversion Hx; subst. eapply completion_ni; [exact E3|exact W2|exact Hidx2|exact Hpres]. }
-  pose proof (pw_completion ev _ _ _ _ _ _ _ _ _ E3) as Q3. pose proof (WF_Rw _ _ Q3 W2) as W3.
+  pose proof (pw_completion ev _ _ _ _ _ _ _ _ _ _ E3) as Q3. pose proof (WF_Rw _ _ Q3 W2) as W3.
   inversion H; subst c' res; clear H. split; [exact W3|]. split; [discriminate|].
   intros p Hpv; inversion Hpv; subst p; clear Hpv. unfold post_machine; simpl.
   destruct Q3 as [_ [T3 [_ [_ [_ [L3 Q3]]]]]].
@@ -1256,7 +1322,7 @@ Proof.
     exists r3. split; [exact E|]. destruct (Q3 _ _ E) as [r2' [Hr2' [_ [_ [_ A]]]]]. unfold rec_at in Hr2. rewrite Hr2 in Hr2'; inversion Hr2'; subst r2'.
     apply A. rewrite Hs2. eapply Hst; [exact Hr|exact Ens].
   - intros ctx Hc; simpl in Hc.
-    destruct (completion_inv _ _ _ _ _ _ _ _ _ _ E3) as [[_ [Hn0 _]]|[Hcomp [c4 [r4 [ctx4 [b4 [[Ks Kt] [_ [Hr4 [Hc4 [Hb4 _]]]]]]]]]]].
+    destruct (completion_inv _ _ _ _ _ _ _ _ _ _ _ E3) as [[_ [Hn0 _]]|[Hcomp [c4 [r4 [ctx4 [b4 [[Ks Kt] [_ [Hr4 [Hc4 [Hb4 _]]]]]]]]]]].
     + rewrite Hn0 in Hc; discriminate.
     + rewrite Hc4 in Hc; inversion Hc; subst ctx4 b4. destruct (Hb4 eq_refl) as [-> [Hv Hal]].
       exists r4. split; [exact Hr4|]. split; [exact Hal|].
@@ -1375,6 +1441,216 @@ Proof.
   apply aget_In in E. rewrite forallb_forall in T. specialize (T _ E). cbv beta iota in T. rewrite T. reflexivity.
 Qed.
 
+(* ------------------------------------------------------------------ other staged keys kept, routes only appended *)
+
+(* what a step on the key k leaves alone: the staged entries under every other key stay (possibly modified), and the
+   route table is only appended to *)
+Definition Rq (k : string * nat) (c c' : cstate) : Prop :=
+  (forall t r, (t, r) <> k -> present c t r -> present c' t r) /\
+  (exists l, routes (c_ws c') = app (routes (c_ws c)) l).
+Lemma Rq_refl : forall k c, Rq k c c.
+Proof. intros k c; split; [auto|apply routes_same]. Qed.
+Lemma Rq_trans : forall k a b c, Rq k a b -> Rq k b c -> Rq k a c.
+Proof.
+  intros k a b c [P1 [l1 X1]] [P2 [l2 X2]]. split; [auto|]. exists (app l1 l2). rewrite X2, X1, app_assoc; reflexivity.
+Qed.
+Lemma Rq_ws : forall k c w',
+  (forall t r, (t, r) <> k -> find (stg_matches t r) (staged (c_ws c)) <> None -> find (stg_matches t r) (staged w') <> None) ->
+  (exists l, routes w' = app (routes (c_ws c)) l) -> Rq k c (set_ws c w').
+Proof. intros k c w' P X. split; [exact P|exact X]. Qed.
+Lemma Rq_same : forall k c c', c_ws c' = c_ws c -> Rq k c c'.
+Proof. intros k c c' E. unfold Rq, present. rewrite E. split; [auto|apply routes_same]. Qed.
+Lemma Rq_remove : forall t r c, Rq (t, r) c (set_ws c (ws_remove_staged_task (c_ws c) t r)).
+Proof.
+  intros t r c. unfold ws_remove_staged_task. destruct (get_staged_task (c_ws c) t r) as [s|]; [|apply Rq_same; destruct c; reflexivity].
+  destruct (items_any_active s); [apply Rq_same; destruct c; reflexivity|].
+  apply Rq_ws; [|apply routes_same]. intros t' r' Hne Hp. simpl. apply find_remove_other; [reflexivity|exact Hne|exact Hp].
+Qed.
+
+Create HintDb presq.
+
+Section OthersKept.
+Variable ev : string -> dict -> evalres.
+Variable k : string * nat.
+
+Ltac q_staged :=
+  intros ?t ?r ?Hne ?Hp; simpl;
+  first [ exact Hp
+        | rewrite staged_update_rec; exact Hp
+        | apply find_staged_update_present; [intro; split; reflexivity|exact Hp]
+        | apply find_app_present; exact Hp ].
+Ltac q_routes :=
+  simpl; first [ apply routes_same | rewrite routes_update_rec; apply routes_same | eexists; reflexivity ].
+Ltac leaf :=
+  first
+    [ apply (preserves_modws (Rq k)); intro; apply Rq_ws; [q_staged|q_routes]
+    | apply (preserves_modify (Rq k)); intro; apply Rq_same; reflexivity
+    | apply (preserves_modify (Rq k)); intro; apply Rq_same;
+      match goal with |- context [if ?b then _ else _] => destruct b end; reflexivity
+    | assumption
+    | match goal with IH : forall _ _ _, preserves _ _ |- _ => apply IH end
+    | match goal with IH : forall _ _, preserves _ _ |- _ => apply IH end
+    | match goal with IH : forall _ _ _ _, preserves _ _ |- _ => apply IH end
+    | eauto 3 with presq ].
+Ltac walk := pw (Rq_refl k) (Rq_trans k) leaf.
+
+Lemma pq_wf_workflow_event : forall st, preserves (Rq k) (wf_workflow_event_M st).
+Proof.
+  intros st c c' r H. unfold wf_workflow_event_M in H.
+  destruct (wf_process_workflow_event (c_graph c) (c_ws c) st) as [[new unr]|e]; inversion H; subst;
+    [apply Rq_ws; [intros ? ? _ Hp; exact Hp|apply routes_same]|apply Rq_refl].
+Qed.
+Hint Resolve pq_wf_workflow_event : presq.
+Lemma pq_wf_task_event : forall t route st, preserves (Rq k) (wf_task_event_M t route st).
+Proof.
+  intros t route st c c' r H. unfold wf_task_event_M in H.
+  destruct (wf_process_task_event (c_graph c) (c_ws c) t route st) as [[new unr]|e]; inversion H; subst;
+    [apply Rq_ws; [intros ? ? _ Hp; exact Hp|apply routes_same]|apply Rq_refl].
+Qed.
+Hint Resolve pq_wf_task_event : presq.
+
+Lemma pq_log_entry_error : forall m t r tr res, preserves (Rq k) (log_entry_error m t r tr res).
+Proof. intros; unfold log_entry_error; walk. Qed.
+Hint Resolve pq_log_entry_error : presq.
+Lemma pq_log_error : forall e t r tr, preserves (Rq k) (log_error e t r tr).
+Proof. intros; unfold log_error; auto with presq. Qed.
+Hint Resolve pq_log_error : presq.
+Lemma pq_log_errors : forall es t r tr, preserves (Rq k) (log_errors es t r tr).
+Proof. intros; unfold log_errors; walk. Qed.
+Hint Resolve pq_log_errors : presq.
+Lemma pq_log_unreachable : forall l, preserves (Rq k) (log_unreachable l).
+Proof. intros; unfold log_unreachable; walk. Qed.
+Hint Resolve pq_log_unreachable : presq.
+Lemma pq_set_rec_status : forall i s, preserves (Rq k) (set_rec_status i s).
+Proof. intros; unfold set_rec_status; walk. Qed.
+Hint Resolve pq_set_rec_status : presq.
+Lemma pq_upd_rec : forall i f, preserves (Rq k) (upd_rec i f).
+Proof. intros; unfold upd_rec; walk. Qed.
+Hint Resolve pq_upd_rec : presq.
+Lemma pq_get_rec : forall i, preserves (Rq k) (get_rec i).
+Proof. intros; unfold get_rec; walk. Qed.
+Hint Resolve pq_get_rec : presq.
+Lemma pq_request_status_core : forall st, preserves (Rq k) (request_status_core st).
+Proof. intros; unfold request_status_core; walk. Qed.
+Hint Resolve pq_request_status_core : presq.
+Lemma pq_render_input : forall specs rt rolling errs, preserves (Rq k) (render_input ev specs rt rolling errs).
+Proof. induction specs as [|[n d] specs IH]; intros; simpl; walk. Qed.
+Hint Resolve pq_render_input : presq.
+Lemma pq_render_vars : forall specs rolling rendered errs, preserves (Rq k) (render_vars ev specs rolling rendered errs).
+Proof. induction specs as [|[n d] specs IH]; intros; simpl; walk. Qed.
+Hint Resolve pq_render_vars : presq.
+Lemma pq_ensure_ws : preserves (Rq k) (ensure_ws ev).
+Proof. unfold ensure_ws; walk. Qed.
+Hint Resolve pq_ensure_ws : presq.
+Lemma pq_get_task_context : forall idxs, preserves (Rq k) (get_task_context idxs).
+Proof. intros; unfold get_task_context; walk. Qed.
+Hint Resolve pq_get_task_context : presq.
+Lemma pq_setup_retry : forall t idxs, preserves (Rq k) (setup_retry ev t idxs).
+Proof. intros; unfold setup_retry; walk. Qed.
+Hint Resolve pq_setup_retry : presq.
+Lemma pq_add_task_state : forall t r i p, preserves (Rq k) (add_task_state ev t r i p).
+Proof. intros; unfold add_task_state; walk. Qed.
+Hint Resolve pq_add_task_state : presq.
+Lemma pq_evaluate_route : forall e r, preserves (Rq k) (evaluate_route e r).
+Proof. intros; unfold evaluate_route; walk. Qed.
+Hint Resolve pq_evaluate_route : presq.
+Lemma pq_evaluate_task_retry : forall r ctx, preserves (Rq k) (evaluate_task_retry ev r ctx).
+Proof. intros; unfold evaluate_task_retry; walk. Qed.
+Hint Resolve pq_evaluate_task_retry : presq.
+Lemma pq_finalize_context : forall ts e ctx, preserves (Rq k) (finalize_context ev ts e ctx).
+Proof. intros; unfold finalize_context; walk. Qed.
+Hint Resolve pq_finalize_context : presq.
+Lemma pq_process_transition : forall t route idx ts ctx e, preserves (Rq k) (process_transition ev t route idx ts ctx e).
+Proof. intros; unfold process_transition; walk. Qed.
+Hint Resolve pq_process_transition : presq.
+
+Lemma pq_need_staged : forall s0, preserves (Rq k) (uts_need_staged s0).
+Proof. intros; unfold uts_need_staged; walk. Qed.
+Hint Resolve pq_need_staged : presq.
+Lemma pq_sel1 : forall t s0 e0, preserves (Rq k) (uts_sel1 ev t s0 e0).
+Proof. intros; unfold uts_sel1; walk. Qed.
+Hint Resolve pq_sel1 : presq.
+Lemma pq_sel2 : forall t evt s0 r1 i, preserves (Rq k) (uts_sel2 ev t evt s0 r1 i).
+Proof. intros; unfold uts_sel2; walk. Qed.
+Hint Resolve pq_sel2 : presq.
+Lemma pq_item : forall t route evt s0, preserves (Rq k) (uts_item t route evt s0).
+Proof. intros; unfold uts_item; walk. Qed.
+Hint Resolve pq_item : presq.
+Lemma pq_logfail : forall t evt, preserves (Rq k) (uts_logfail t evt).
+Proof. intros; unfold uts_logfail; walk. Qed.
+Hint Resolve pq_logfail : presq.
+Lemma pq_setst : forall i ns, preserves (Rq k) (uts_setst i ns).
+Proof. intros; unfold uts_setst; walk. Qed.
+Hint Resolve pq_setst : presq.
+Lemma pq_queue : forall t route idx ts o n compl, preserves (Rq k) (uts_queue ev t route idx ts o n compl).
+Proof. intros; unfold uts_queue; walk. Qed.
+Hint Resolve pq_queue : presq.
+
+End OthersKept.
+
+Section OthersKeptBody.
+Variable ev : string -> dict -> evalres.
+
+Lemma pq_remove_staged : forall t route, preserves (Rq (t, route)) (modws (fun w => ws_remove_staged_task w t route)).
+Proof. intros t route. apply (preserves_modws (Rq (t, route))). intro c. apply Rq_remove. Qed.
+Lemma pq_unstage : forall t route evt s0, preserves (Rq (t, route)) (uts_unstage t route evt s0).
+Proof.
+  intros t route evt s0. unfold uts_unstage.
+  destruct s0 as [s|]; [|apply (preserves_ret _ (Rq_refl _))].
+  destruct (s_items s); [apply (preserves_ret _ (Rq_refl _))|].
+  destruct evt; first [apply pq_remove_staged|apply (preserves_ret _ (Rq_refl _))].
+Qed.
+Lemma pq_retrying : forall t route idx r ns, preserves (Rq (t, route)) (uts_retrying t route idx r ns).
+Proof.
+  intros t route idx r ns. unfold uts_retrying.
+  destruct (status_eqb ns S_RETRYING); [|apply (preserves_ret _ (Rq_refl _))].
+  destruct (r_retry r) as [rr|]; [|apply (preserves_raise _ (Rq_refl _))]. cbv zeta.
+  apply (preserves_bind _ (Rq_trans _)); [apply pq_upd_rec|intros _].
+  apply (preserves_bind _ (Rq_trans _)); [apply pq_remove_staged|intros _].
+  apply (preserves_modws (Rq (t, route))). intro c. apply Rq_ws; [|apply routes_same].
+  intros t' r' _ Hp. simpl. apply find_app_present; exact Hp.
+Qed.
+Lemma pq_completion : forall t route evt ts idx ns o0, preserves (Rq (t, route)) (uts_completion ev t route evt ts idx ns o0).
+Proof.
+  intros. unfold uts_completion.
+  pw (Rq_refl (t, route)) (Rq_trans (t, route))
+     ltac:(first [apply pq_remove_staged|apply pq_get_rec|apply pq_get_task_context|apply pq_evaluate_task_retry
+                 |apply pq_log_error|apply pq_request_status_core
+                 |apply (preserves_modws (Rq (t, route))); intro; apply Rq_ws; [|apply routes_same];
+                  intros ? ? _ Hp; simpl; apply find_staged_update_present; [intro; split; reflexivity|exact Hp]]).
+Qed.
+Lemma pq_pre_machine : forall t route evt ts idx, preserves (Rq (t, route)) (pre_machine ev t route evt ts idx).
+Proof.
+  intros. unfold pre_machine.
+  pw (Rq_refl (t, route)) (Rq_trans (t, route))
+     ltac:(first [apply pq_get_rec|apply pq_setst|apply pq_retrying|apply pq_completion]).
+Qed.
+Lemma pq_pre_main : forall t route evt ts s0 e0, preserves (Rq (t, route)) (pre_main ev t route evt ts s0 e0).
+Proof.
+  intros. unfold pre_main.
+  pw (Rq_refl (t, route)) (Rq_trans (t, route))
+     ltac:(first [apply pq_sel1|apply pq_get_rec|apply pq_sel2|apply pq_unstage|apply pq_item|apply pq_logfail|apply pq_pre_machine]).
+Qed.
+Lemma pq_prefix : forall t route evt, preserves (Rq (t, route)) (uts_prefix ev t route evt).
+Proof.
+  intros. unfold uts_prefix.
+  pw (Rq_refl (t, route)) (Rq_trans (t, route)) ltac:(first [apply pq_ensure_ws|apply pq_pre_main]).
+Qed.
+Lemma pq_tail_norec : forall t route ts idx o n compl,
+  preserves (Rq (t, route)) (uts_tail ev (fun _ _ _ => ret tt) t route ts idx o n compl).
+Proof.
+  intros. unfold uts_tail, uts_call.
+  pw (Rq_refl (t, route)) (Rq_trans (t, route))
+     ltac:(first [apply pq_queue|apply pq_get_rec|apply pq_wf_task_event|apply pq_log_unreachable|apply pq_upd_rec]).
+Qed.
+Lemma pq_body_norec : forall t route evt, preserves (Rq (t, route)) (uts_body ev (fun _ _ _ => ret tt) t route evt).
+Proof.
+  intros t route evt c c' r H. rewrite body_eq in H.
+  revert c c' r H. apply (preserves_bind _ (Rq_trans _)); [apply pq_prefix|intro p; apply pq_tail_norec].
+Qed.
+
+End OthersKeptBody.
+
 (* ------------------------------------------------------------------ transitions, the queue, the tail *)
 
 Lemma static_transfer : forall c c', c_graph c' = c_graph c -> c_spec c' = c_spec c ->
@@ -1385,29 +1661,66 @@ Section TailWF.
 Variable ev : string -> dict -> evalres.
 Hypothesis Hev : eval_no_internal ev.
 
+Definition cmds_of (rs : list (option (string * nat) * option (string * nat))) : list (string * nat) :=
+  flat_map (fun '(q, _) => match q with Some x => [x] | None => [] end) rs.
+
+(* a queued command: staged; it comes from an edge of the list, and either kept the route (then that edge is one of
+   those that keep it) or sits on a route opened since *)
+Definition cmd_post (route : nat) (l : list gedge) (c c' : cstate) (p : string * nat) : Prop :=
+  is_engine_command (fst p) = true /\ present c' (fst p) (snd p) /\
+  exists e, In e l /\ e_dst e = fst p /\
+            ((snd p = route /\ stays c route e = true) \/ length (routes (c_ws c)) <= snd p).
+
+Definition on_route (c : cstate) (route : nat) (e : gedge) : bool := is_engine_command (e_dst e) && stays c route e.
+
 Lemma mapM_pt_wf : forall t route idx ts ctx l c c' res,
   mapM (process_transition ev t route idx ts ctx) l c = (c', res) ->
   WF c -> static_ok (c_spec c) (c_graph c) -> (forall e, In e l -> In e (g_next_transitions (c_graph c) t)) ->
   spec_get_task (c_spec c) t = Some ts -> route < length (routes (c_ws c)) -> idx < length (sequence (c_ws c)) ->
   WF c' /\ Rgrow c c' /\ (forall x, res = Exc x -> ~ internal_cls x) /\
-  (forall rs, res = Val rs -> Forall2 (fun e v => pt_post e c' v) l rs).
+  (forall rs, res = Val rs ->
+     Forall (cmd_post route l c c') (cmds_of rs) /\
+     (NoDup (map e_dst (filter (on_route c route) l)) -> NoDup (cmds_of rs))).
 Proof.
   intros t route idx ts ctx l; induction l as [|e l IH]; intros c c' res H Wc Hso Hl Hts Hroute Hidx.
   - inversion H; subst. split; [exact Wc|]. split; [apply Rgrow_refl|]. split; [discriminate|].
-    intros rs Hrs; inversion Hrs; constructor.
+    intros rs Hrs; inversion Hrs; subst rs. simpl. split; [constructor|intros _; constructor].
   - simpl in H. apply bind_inv in H. destruct H as [[c1 [v [E1 H]]]|[x [E1 ->]]].
     + destruct (process_transition_wf ev Hev _ _ _ _ _ _ _ _ _ E1 Wc Hso (Hl e (or_introl eq_refl)) Hts Hroute Hidx)
         as [W1 [G1 [_ P1]]]. specialize (P1 v eq_refl).
-      pose proof G1 as [Gg [Gs [_ [_ [Go [_ [Gl _]]]]]]].
+      pose proof G1 as [Gg [Gs [_ [_ [Go [_ [Gl [_ [_ Gx]]]]]]]]].
       apply bind_inv in H. destruct H as [[c2 [vs [E2 H]]]|[x [E2 ->]]].
       * assert (IHr := IH c1 c2 (Val vs) E2 W1 (static_transfer _ _ Gg Gs Hso)).
         destruct IHr as [W2 [G2 [_ P2]]].
         { intros e0 He0. rewrite Gg. apply Hl. right; exact He0. }
         { rewrite Gs; exact Hts. } { lia. } { rewrite Gl; exact Hidx. }
+        destruct (P2 vs eq_refl) as [F2 N2]. clear P2.
         inversion H; subst c' res. split; [exact W2|]. split; [eapply Rgrow_trans; eassumption|]. split; [discriminate|].
-        intros rs Hrs; inversion Hrs; subst rs. constructor; [|apply P2; reflexivity].
-        intros n rt Hn. destruct (P1 n rt Hn) as [A [B C]]. repeat split; try assumption.
-        destruct G2 as [_ [_ [_ [_ [_ [_ [_ [_ Pp]]]]]]]]. apply Pp; exact C.
+        intros rs Hrs; inversion Hrs; subst rs.
+        (* the later commands, seen from the start *)
+        assert (F2' : Forall (cmd_post route (e :: l) c c2) (cmds_of vs)).
+        { eapply Forall_impl; [|exact F2]. intros p [A [B [e' [He' [Hd' K]]]]]. split; [exact A|]. split; [exact B|].
+          exists e'. split; [right; exact He'|]. split; [exact Hd'|].
+          destruct K as [[K1 K2]|K]; [left; split; [exact K1|eapply stays_mono; eassumption]|right; lia]. }
+        assert (Mono : NoDup (map e_dst (filter (on_route c route) l)) -> NoDup (cmds_of vs)).
+        { intro Hn. apply N2. eapply NoDup_map_filter_mono; [|exact Hn]. intros e0 He0. unfold on_route in *.
+          apply andb_prop in He0. destruct He0 as [A B]. rewrite A. simpl. eapply stays_mono; eassumption. }
+        destruct v as [q q']. unfold cmds_of. simpl. fold (cmds_of vs).
+        destruct q as [[n rt]|]; simpl.
+        2: { split; [exact F2'|]. intro Hn. apply Mono. destruct (on_route c route e); [simpl in Hn; inversion Hn; assumption|exact Hn]. }
+        destruct (P1 n rt eq_refl) as [A [B [C [D K]]]]. subst n.
+        split.
+        -- constructor; [|exact F2']. split; [exact B|]. split; [destruct G2 as [_ [_ [_ [_ [_ [_ [_ [_ [Pp _]]]]]]]]]; apply Pp; exact C|].
+           exists e. split; [left; reflexivity|]. split; [reflexivity|exact K].
+        -- intro Hn. constructor.
+           2: { apply Mono. destruct (on_route c route e); [simpl in Hn; inversion Hn; assumption|exact Hn]. }
+           intro Hin. rewrite Forall_forall in F2. destruct (F2 _ Hin) as [_ [_ [e' [He' [Hd' K']]]]]. simpl in Hd', K'.
+           destruct K' as [[K1 K2]|K']; [|lia]. subst rt.
+           destruct K as [[_ K]|K]; [|lia].
+           assert (On : on_route c route e = true) by (unfold on_route; rewrite B, K; reflexivity).
+           rewrite On in Hn. simpl in Hn. apply NoDup_cons_iff in Hn. destruct Hn as [Hn _]. apply Hn.
+           rewrite <- Hd'. apply in_map. apply filter_In. split; [exact He'|].
+           unfold on_route. rewrite Hd', B. simpl. eapply stays_mono; eassumption.
       * assert (IHr := IH c1 c' (Exc x) E2 W1 (static_transfer _ _ Gg Gs Hso)).
         destruct IHr as [W2 [G2 [N2 _]]].
         { intros e0 He0. rewrite Gg. apply Hl. right; exact He0. }
@@ -1421,21 +1734,6 @@ Qed.
 Definition queued_ok (c : cstate) (p : string * nat) : Prop :=
   is_engine_command (fst p) = true /\ present c (fst p) (snd p) /\ cmd_startable (fst p).
 
-Lemma cmds_of_posts : forall g c' (l : list gedge) rs,
-  (forall e, In e l -> In e (g_edges g)) ->
-  (forall e, In e (g_edges g) -> is_engine_command (e_dst e) = true -> cmd_startable (e_dst e)) ->
-  Forall2 (fun e v => pt_post e c' v) l rs ->
-  let cmds := flat_map (fun '(q, _) => match q with Some x => [x] | None => [] end) rs in
-  Forall (queued_ok c') cmds /\ length cmds <= length (filter (fun e => is_engine_command (e_dst e)) l).
-Proof.
-  intros g c' l rs Hl Hstart H; induction H as [|e [q q'] l rs Hq Hrest IH]; simpl; [split; [constructor|lia]|].
-  destruct IH as [IH1 IH2]; [intros e0 He0; apply Hl; right; exact He0|].
-  destruct q as [[n rt]|]; simpl.
-  - destruct (Hq n rt eq_refl) as [A [B C]]. subst n. rewrite B. simpl. split; [|lia].
-    constructor; [|exact IH1]. repeat split; simpl; try assumption. apply Hstart; [apply Hl; left; reflexivity|exact B].
-  - split; [exact IH1|]. destruct (is_engine_command (e_dst e)); simpl; lia.
-Qed.
-
 Lemma run_on_fail_loop : forall (readies : list (string * nat)),
   preserves Rw (forM_ readies (fun '(n, rt) =>
      modws (fun w => ws_set_staged w (staged_update (fun s => s_set_run_on_fail s true) n rt (staged w))))) /\
@@ -1446,22 +1744,22 @@ Proof.
   - apply (preserves_forM _ Rw_refl Rw_trans). intros [n rt]. apply (preserves_modws Rw); intro c.
     apply Rw_staged_update. intro; repeat split; reflexivity.
   - apply (preserves_forM _ Rgrow_refl Rgrow_trans). intros [n rt]. apply (preserves_modws Rgrow); intro c.
-    apply Rgrow_ws; simpl; auto. intros t0 r0 Hp. apply find_staged_update_present; [intro; split; reflexivity|exact Hp].
+    apply Rgrow_ws; simpl; auto; try apply routes_same. intros t0 r0 Hp. apply find_staged_update_present; [intro; split; reflexivity|exact Hp].
 Qed.
 
 Lemma queue_wf : forall t route idx ts old new compl c c' res,
   uts_queue ev t route idx ts old new compl c = (c', res) ->
   WF c -> static_ok (c_spec c) (c_graph c) -> spec_get_task (c_spec c) t = Some ts ->
-  route < length (routes (c_ws c)) -> idx < length (sequence (c_ws c)) ->
+  route < length (routes (c_ws c)) -> idx < length (sequence (c_ws c)) -> cmd_routes_distinct c t route ->
   WF c' /\ Rgrow c c' /\ (forall x, res = Exc x -> ~ internal_cls x) /\
-  (forall q, res = Val q -> Forall (queued_ok c') q /\ length q <= 1).
+  (forall q, res = Val q -> Forall (queued_ok c') q /\ NoDup q).
 Proof.
-  intros t route idx ts old new compl c c' res H Wc Hso Hts Hroute Hidx. unfold uts_queue in H.
+  intros t route idx ts old new compl c c' res H Wc Hso Hts Hroute Hidx Hd. unfold uts_queue in H.
   assert (Nil : (c', res) = (c, Val []) ->
     WF c' /\ Rgrow c c' /\ (forall x, res = Exc x -> ~ internal_cls x) /\
-    (forall q, res = Val q -> Forall (queued_ok c') q /\ length q <= 1)).
+    (forall q, res = Val q -> Forall (queued_ok c') q /\ NoDup q)).
   { intro E; inversion E; subst. split; [exact Wc|]. split; [apply Rgrow_refl|]. split; [discriminate|].
-    intros q Hq; inversion Hq; subst. split; [constructor|simpl; lia]. }
+    intros q Hq; inversion Hq; subst. split; constructor. }
   destruct compl as [[ctx b]|]; [|apply Nil; symmetry; exact H].
   destruct (negb (status_eqb new old)); [|apply Nil; symmetry; exact H].
   rewrite (bind_step _ _ _ _ _ _ _ (eq_refl : get c = (c, Val c))) in H. cbv zeta in H.
@@ -1478,7 +1776,7 @@ Proof.
   2: { exfalso. destruct trs; [unfold upd_rec, modws in E1|]; inversion E1. }
   assert (Q1 : WF c1 /\ Rgrow c c1).
   { destruct trs; [eapply (QuietU c c1 _ _ Pt1 Pt2 Wc (Rgrow_refl c)); exact E1|inversion E1; subst; split; [exact Wc|apply Rgrow_refl]]. }
-  destruct Q1 as [W1 G1]. pose proof G1 as [Gg [Gs [_ [_ [Go [_ [Gl _]]]]]]].
+  destruct Q1 as [W1 G1]. pose proof G1 as [Gg [Gs [_ [_ [Go [_ [Gl [_ [_ Gx]]]]]]]]].
   apply bind_inv in H. destruct H as [[c2 [rs [E2 H]]]|[x [E2 ->]]].
   2: { destruct (mapM_pt_wf _ _ _ _ _ _ _ _ _ E2 W1 (static_transfer _ _ Gg Gs Hso)) as [W2 [G2 [N2 _]]].
        { intros e He. rewrite Gg. exact He. } { rewrite Gs; exact Hts. } { lia. } { rewrite Gl; exact Hidx. }
@@ -1486,8 +1784,8 @@ Proof.
        split; [intros x0 Hx; inversion Hx; subst; apply N2; reflexivity|discriminate]. }
   destruct (mapM_pt_wf _ _ _ _ _ _ _ _ _ E2 W1 (static_transfer _ _ Gg Gs Hso)) as [W2 [G2 [_ P2]]].
   { intros e He. rewrite Gg. exact He. } { rewrite Gs; exact Hts. } { lia. } { rewrite Gl; exact Hidx. }
-  specialize (P2 rs eq_refl). cbv zeta in H.
-  set (cmds := flat_map (fun '(q, _) => match q with Some x => [x] | None => [] end) rs) in *.
+  destruct (P2 rs eq_refl) as [F2 N2]. clear P2. cbv zeta in H. fold (cmds_of rs) in H.
+  set (cmds := cmds_of rs) in *.
   apply bind_inv in H. destruct H as [[c3 [u3 [E3 H]]]|[x [E3 ->]]].
   2: { exfalso. destruct (existsb _ cmds); [|inversion E3].
        match type of E3 with forM_ ?l ?f _ = _ => assert (V : forall cx cy ee, forM_ l f cx = (cy, Exc ee) -> False) end; [|eapply V; exact E3].
@@ -1510,44 +1808,70 @@ Proof.
   destruct Q4 as [W4 G4]. inversion H; subst c' res; clear H.
   split; [exact W4|]. split; [exact G4|]. split; [discriminate|].
   intros q Hq; inversion Hq; subst q; clear Hq.
-  assert (P4 : Forall2 (fun e v => pt_post e c4 v) trs rs).
-  { assert (G24 : forall t0 r0, present c2 t0 r0 -> present c4 t0 r0).
-    { intros t0 r0 Hp0. destruct G3 as [_ [_ [_ [_ [_ [_ [_ [_ Pa]]]]]]]]. apply Pa in Hp0.
-      destruct trs.
-      - inversion E4; subst; exact Hp0.
-      - destruct (existsb _ (r_next r)); [inversion E4; subst; exact Hp0|].
-        pose proof (pst_upd_rec _ _ _ _ _ E4) as [St _]. unfold present, get_staged_task in *. rewrite St; exact Hp0. }
-    clear -P2 G24. induction P2; constructor; [|assumption].
-    intros n rt Hn. destruct (H n rt Hn) as [A [B C]]. repeat split; auto. }
-  destruct (cmds_of_posts (c_graph c) c4 trs rs) as [A B]; [| |exact P4|].
-  - intros e He. apply (In_next_transitions _ _ _ He).
-  - apply (so_start _ _ Hso).
-  - split; [exact A|]. eapply Nat.le_trans; [exact B|apply (so_le1 _ _ Hso)].
+  assert (G24 : forall t0 r0, present c2 t0 r0 -> present c4 t0 r0).
+  { intros t0 r0 Hp0. destruct G3 as [_ [_ [_ [_ [_ [_ [_ [_ [Pa _]]]]]]]]]. apply Pa in Hp0.
+    destruct trs.
+    - inversion E4; subst; exact Hp0.
+    - destruct (existsb _ (r_next r)); [inversion E4; subst; exact Hp0|].
+      pose proof (pst_upd_rec _ _ _ _ _ E4) as [St _]. unfold present, get_staged_task in *. rewrite St; exact Hp0. }
+  split.
+  - eapply Forall_impl; [|exact F2]. intros p [A [B [e [He [Hde _]]]]]. split; [exact A|]. split; [apply G24; exact B|].
+    rewrite <- Hde. apply (so_start _ _ Hso); [apply (In_next_transitions _ _ _ He)|rewrite Hde; exact A].
+  - apply N2. unfold cmd_routes_distinct, cmd_edges_on_route in Hd. fold trs in Hd.
+    eapply NoDup_map_filter_mono; [|exact Hd]. intros e0 He0. unfold on_route in He0.
+    apply andb_prop in He0. destruct He0 as [A B]. rewrite A. simpl. eapply stays_mono; eassumption.
 Qed.
 
 (* calls the body makes to itself: (A) the retry re-entry for a record whose retry was decided, (B) a queued
    engine command that is staged *)
 Definition entry_int (evt : event) (c : cstate) (t : string) (route : nat) : Prop :=
-  (evt = retry_event /\ is_engine_command t = false /\
+  (evt = retry_event /\ is_engine_command t = false /\ cmd_routes_distinct c t route /\
    exists idx r, ws_task_idx (c_ws c) t route = Some idx /\ rec_at c idx = Some r /\ allowed r /\
                  tbl_step task_table (rstatus r) EV_TASK_RETRY_REQUESTED = Some S_RETRYING) \/
   (is_engine_command t = true /\ present c t route /\ engine_event t = Some evt /\ cmd_startable t).
 
+(* such a call keeps the state well-formed and raises nothing internal; it never touches the definition or the
+   graph, and a command's call leaves the staged entries of all other keys in place *)
 Definition callW (rec : string -> nat -> event -> M unit) : Prop :=
   forall t route evt c c' r, WF c -> static_ok (c_spec c) (c_graph c) -> entry_int evt c t route ->
-    rec t route evt c = (c', r) -> WF c' /\ (forall x, r = Exc x -> ~ internal_cls x).
+    rec t route evt c = (c', r) ->
+    WF c' /\ (forall x, r = Exc x -> ~ internal_cls x) /\ c_graph c' = c_graph c /\ c_spec c' = c_spec c /\
+    (is_engine_command t = true -> Rq (t, route) c c').
+
+Lemma queue_loop_wf : forall rec, callW rec -> forall q c c' r,
+  forM_ q (uts_call rec) c = (c', r) ->
+  WF c -> static_ok (c_spec c) (c_graph c) -> Forall (queued_ok c) q -> NoDup q ->
+  WF c' /\ (forall x, r = Exc x -> ~ internal_cls x).
+Proof.
+  intros rec Hrec q; induction q as [|[n rt] q IH]; intros c c' r H Wc Hso Hq Hn.
+  - inversion H; subst. split; [exact Wc|discriminate].
+  - simpl in H. inversion Hq as [|x l Hq1 Hq2]; subst. destruct Hq1 as [A [B C]]. simpl in A, B, C.
+    apply NoDup_cons_iff in Hn. destruct Hn as [Hn1 Hn2].
+    destruct (cmd_engine_event n A) as [e Ee].
+    assert (Ent : entry_int e c n rt) by (right; split; [exact A|split; [exact B|split; [exact Ee|exact C]]]).
+    apply bind_inv in H. destruct H as [[c1 [u1 [E1 H]]]|[x [E1 ->]]].
+    + unfold uts_call in E1. rewrite Ee in E1.
+      destruct (Hrec n rt e c c1 (Val u1) Wc Hso Ent E1) as [W1 [_ [G1 [S1 Q1]]]]. destruct (Q1 A) as [P1 _].
+      eapply IH; [exact H|exact W1|apply (static_transfer c c1 G1 S1 Hso)| |exact Hn2].
+      rewrite Forall_forall in Hq2 |- *. intros [n' rt'] Hin. destruct (Hq2 _ Hin) as [A' [B' C']].
+      split; [exact A'|]. split; [|exact C']. simpl in *. apply P1; [|exact B'].
+      intro E; inversion E; subst. apply Hn1; exact Hin.
+    + unfold uts_call in E1. rewrite Ee in E1.
+      destruct (Hrec n rt e c c' (Exc x) Wc Hso Ent E1) as [W1 [N1 _]]. split; [exact W1|exact N1].
+Qed.
 
 Lemma tail_wf : forall rec, callW rec -> forall t route ts idx old new compl c c' res,
   uts_tail ev rec t route ts idx old new compl c = (c', res) ->
   WF c -> static_ok (c_spec c) (c_graph c) -> spec_get_task (c_spec c) t = Some ts ->
   ws_task_idx (c_ws c) t route = Some idx ->
   (exists r, rec_at c idx = Some r /\ r_status r <> None) ->
+  cmd_routes_distinct c t route ->
   (forall ctx, compl = Some (ctx, true) ->
      is_engine_command t = false /\
      exists r, rec_at c idx = Some r /\ allowed r /\ tbl_step task_table (rstatus r) EV_TASK_RETRY_REQUESTED = Some S_RETRYING) ->
   WF c' /\ (forall x, res = Exc x -> ~ internal_cls x).
 Proof.
-  intros rec Hrec t route ts idx old new compl c c' res H Wc Hso Hts Hp Hst Hdec. unfold uts_tail in H.
+  intros rec Hrec t route ts idx old new compl c c' res H Wc Hso Hts Hp Hst Hd Hdec. unfold uts_tail in H.
   destruct (wf_ptr _ Wc _ _ Hp) as [Hidx Hroute]. simpl in Hroute.
   assert (Rest : forall compl',
      (queue <- uts_queue ev t route idx ts old new compl' ;;
@@ -1561,9 +1885,9 @@ Proof.
      WF c' /\ (forall x, res = Exc x -> ~ internal_cls x)).
   { intros compl' H0.
     apply bind_inv in H0. destruct H0 as [[c1 [q [E1 H0]]]|[x [E1 ->]]].
-    2: { destruct (queue_wf _ _ _ _ _ _ _ _ _ _ E1 Wc Hso Hts Hroute Hidx) as [W1 [_ [N1 _]]]. split; [exact W1|].
+    2: { destruct (queue_wf _ _ _ _ _ _ _ _ _ _ E1 Wc Hso Hts Hroute Hidx Hd) as [W1 [_ [N1 _]]]. split; [exact W1|].
          intros x0 Hx; inversion Hx; subst; apply N1; reflexivity. }
-    destruct (queue_wf _ _ _ _ _ _ _ _ _ _ E1 Wc Hso Hts Hroute Hidx) as [W1 [G1 [_ Q1]]]. destruct (Q1 q eq_refl) as [Qok Qlen].
+    destruct (queue_wf _ _ _ _ _ _ _ _ _ _ E1 Wc Hso Hts Hroute Hidx Hd) as [W1 [G1 [_ Q1]]]. destruct (Q1 q eq_refl) as [Qok Qnd].
     pose proof G1 as [Gg [Gs [_ [_ [_ [_ [Gl [Gq _]]]]]]]].
     assert (Hidx1 : idx < length (sequence (c_ws c1))) by (rewrite Gl; exact Hidx).
     destruct (get_rec_ok idx c1 Hidx1) as [r [Eg Hr]]. rewrite (bind_step _ _ _ _ _ _ _ Eg) in H0.
@@ -1579,23 +1903,12 @@ Proof.
          eapply ni_log_unreachable; exact E3. }
     pose proof (WF_Rw _ _ (pw_log_unreachable _ _ _ _ E3) W2) as W3. pose proof (pst_log_unreachable _ _ _ _ E3) as S3.
     assert (S13 : Rst c1 c3) by (eapply Rst_trans; eassumption). destruct S13 as [St13 [Sg13 Ss13]].
-    (* at most one queued command *)
+    (* the queued commands, one after the other *)
     assert (Loop : forall c4 r4, forM_ q (uts_call rec) c3 = (c4, r4) -> WF c4 /\ (forall x, r4 = Exc x -> ~ internal_cls x)).
-    { intros c4 r4 E4. destruct q as [|[n rt] q]; [inversion E4; subst; split; [exact W3|discriminate]|].
-      destruct q as [|p q]; [|simpl in Qlen; lia]. simpl in E4.
-      inversion Qok as [|x l Hq _]; subst. destruct Hq as [A [B C]]. simpl in A, B, C.
-      destruct (cmd_engine_event n A) as [e Ee].
-      apply bind_inv in E4. destruct E4 as [[c5 [u5 [E5 E4]]]|[x [E5 ->]]].
-      - inversion E4; subst c4 r4. unfold uts_call in E5. rewrite Ee in E5.
-        destruct (Hrec n rt e c3 c5 (Val u5) W3) as [W5 _]; [| |exact E5|split; [exact W5|discriminate]].
-        + apply (static_transfer c c3); [congruence|congruence|exact Hso].
-        + right. split; [exact A|]. split; [|split; [exact Ee|exact C]].
-          unfold present, get_staged_task in *. rewrite St13. exact B.
-      - unfold uts_call in E5. rewrite Ee in E5.
-        destruct (Hrec n rt e c3 c4 (Exc x) W3) as [W5 N5]; [| |exact E5|split; [exact W5|exact N5]].
-        + apply (static_transfer c c3); [congruence|congruence|exact Hso].
-        + right. split; [exact A|]. split; [|split; [exact Ee|exact C]].
-          unfold present, get_staged_task in *. rewrite St13. exact B. }
+    { intros c4 r4 E4. eapply (queue_loop_wf rec Hrec); [exact E4|exact W3| | |exact Qnd].
+      - apply (static_transfer c c3); [congruence|congruence|exact Hso].
+      - eapply Forall_impl; [|exact Qok]. intros p [A [B C]]. split; [exact A|]. split; [|exact C].
+        unfold present, get_staged_task in *. rewrite St13. exact B. }
     apply bind_inv in H0. destruct H0 as [[c4 [u4 [E4 H0]]]|[x [E4 ->]]]; [|apply (Loop _ _ E4)].
     destruct (Loop _ _ E4) as [W4 _].
     rewrite (bind_step _ _ _ _ _ _ _ (eq_refl : getws c4 = (c4, Val (c_ws c4)))) in H0.
@@ -1603,7 +1916,8 @@ Proof.
     split; [eapply WF_Rw; [eapply pw_upd_term; exact H0|exact W4]|]. intros x ->. eapply ni_upd_rec; exact H0. }
   destruct compl as [[ctx [|]]|]; [|apply (Rest _ H)|apply (Rest _ H)].
   destruct (Hdec ctx eq_refl) as [Hnc [r [Hr [Hal Hstep]]]].
-  eapply Hrec; [exact Wc|exact Hso| |exact H]. left. split; [reflexivity|]. split; [exact Hnc|]. exists idx, r. auto.
+  destruct (Hrec t route retry_event c c' res Wc Hso) as [W' [N' _]]; [|exact H|split; [exact W'|exact N']].
+  left. split; [reflexivity|]. split; [exact Hnc|]. split; [exact Hd|]. exists idx, r. auto.
 Qed.
 
 End TailWF.
@@ -1807,7 +2121,7 @@ Proof.
   { intros [_ Hw]. unfold wellformed_call_b in Hw. cbv zeta in Hw. apply andb_prop in Hw; destruct Hw as [Hw _].
     apply andb_prop in Hw; destruct Hw as [Hw _]. apply negb_true_iff in Hw. exact Hw. }
   assert (Hsafe : s0 <> None \/ (e0 <> None /\ is_engine_command t = false)).
-  { destruct Hent as [Hp|[[_ [Hc [idx [r [Hpt _]]]]]|[_ [Hpr _]]]].
+  { destruct Hent as [Hp|[[_ [Hc [_ [idx [r [Hpt _]]]]]]|[_ [Hpr _]]]].
     - specialize (Hcmd_ext Hp). destruct Hex as [A|A]; [left; exact A|right; split; assumption].
     - right. split; [unfold e0; rewrite Hpt; discriminate|exact Hc].
     - left. exact Hpr. }
@@ -1860,7 +2174,7 @@ Proof.
     (forall r ns, rec_at c5 idx = Some r -> task_process_event (c_ws c5) r evt = Val ns -> task_has_items ts = true ->
         status_in (rstatus (stepped r ns)) ABENDED_STATUSES = true -> present c5 t route)).
   { unfold rec_at. rewrite Ks.
-    destruct Hent as [[Hpe Hw]|[[Hevt [Hnc [i [r0 [Hpt [Hr0 [Hal Hstep]]]]]]]|[Hc [Hpr [Hee Hsta]]]]].
+    destruct Hent as [[Hpe Hw]|[[Hevt [Hnc [_ [i [r0 [Hpt [Hr0 [Hal Hstep]]]]]]]]|[Hc [Hpr [Hee Hsta]]]]].
     - (* a provider call that is well-formed *)
       pose proof (Hcmd_ext (conj Hpe Hw)) as Hnc.
       unfold wellformed_call_b in Hw. cbv zeta in Hw. rewrite Hts in Hw. fold r_eff wI in Hw.
@@ -1957,39 +2271,58 @@ Proof.
 Qed.
 
 Lemma body_wf : forall rec, callW rec -> forall t route evt c c' r,
-  WF c -> static_ok (c_spec c) (c_graph c) -> entry_any evt c t route ->
+  WF c -> static_ok (c_spec c) (c_graph c) -> entry_any evt c t route -> cmd_routes_distinct c t route ->
   uts_body ev rec t route evt c = (c', r) -> WF c' /\ (forall x, r = Exc x -> ~ internal_cls x).
 Proof.
-  intros rec Hrec t route evt c c' r Wc Hso Hent H. rewrite body_eq in H.
+  intros rec Hrec t route evt c c' r Wc Hso Hent Hd H. rewrite body_eq in H.
   apply bind_inv in H. destruct H as [[c1 [p [E1 H]]]|[x [E1 ->]]].
   2: { destruct (prefix_wf _ _ _ _ _ _ E1 Wc Hso Hent) as [W1 [N1 _]]. split; [exact W1|].
        intros x0 Hx; inversion Hx; subst; apply N1; reflexivity. }
   destruct (prefix_wf _ _ _ _ _ _ E1 Wc Hso Hent) as [W1 [_ P1]]. destruct (P1 p eq_refl) as [Hts [idx Hpost]].
   pose proof (pg_prefix ev _ _ _ _ _ _ E1) as Gg. pose proof (ps_prefix ev _ _ _ _ _ _ E1) as Gs.
+  pose proof (pq_prefix ev _ _ _ _ _ _ E1) as [_ Gx].
   unfold Rg in Gg. unfold Rs in Gs.
   destruct Hpost as [Hi [_ [Hp [Hst Hdec]]]]. unfold tail_of in H. rewrite Hi in H.
-  eapply (tail_wf ev Hev rec Hrec); [exact H|exact W1|apply (static_transfer c c1 Gg Gs Hso)|rewrite Gs; exact Hts|exact Hp|exact Hst|].
+  eapply (tail_wf ev Hev rec Hrec); [exact H|exact W1|apply (static_transfer c c1 Gg Gs Hso)|rewrite Gs; exact Hts|exact Hp|exact Hst
+                                    |apply (distinct_mono c c1 t route Gg Gs Gx Hd)|].
   intros ctx Hc. unfold decided3 in Hdec. rewrite Hi in Hdec. split; [|apply (Hdec ctx Hc)].
   destruct (is_engine_command t) eqn:Ecmd; [|reflexivity]. exfalso.
   assert (Hnr : g_task_has_retry (c_graph c) t = false) by (apply (so_inert _ _ Hso t Ecmd)).
   pose proof (prefix_cmd_no_retry ev _ _ _ _ _ _ Ecmd Hnr E1 ctx true Hc). discriminate.
 Qed.
 
+(* a command has no edge *)
+Lemma cmd_distinct : forall c t route, graph_commands_inert (c_graph c) -> is_engine_command t = true ->
+  cmd_routes_distinct c t route.
+Proof.
+  intros c t route Hi Ht. unfold cmd_routes_distinct, cmd_edges_on_route. rewrite (proj1 (Hi t Ht)). constructor.
+Qed.
+
 Lemma uts_fuel_callW : forall fuel, callW (update_task_state_fuel ev fuel).
 Proof.
   induction fuel as [|fuel IH]; intros t route evt c c' r Wc Hso Hent H.
-  - inversion H; subst. split; [exact Wc|]. intros x Hx; inversion Hx; subst. not_internal.
-  - rewrite uts_unfold in H. eapply body_wf; [exact IH|exact Wc|exact Hso|right; exact Hent|exact H].
+  - inversion H; subst. split; [exact Wc|]. split; [intros x Hx; inversion Hx; subst; not_internal|].
+    split; [reflexivity|]. split; [reflexivity|]. intros _. apply Rq_refl.
+  - pose proof (pg_uts_fuel ev _ _ _ _ _ _ _ H) as Gg. pose proof (ps_uts_fuel ev _ _ _ _ _ _ _ H) as Gs.
+    unfold Rg in Gg. unfold Rs in Gs.
+    rewrite uts_unfold in H.
+    assert (Hd : cmd_routes_distinct c t route).
+    { destruct Hent as [[_ [_ [Hd _]]]|[Hc _]]; [exact Hd|apply cmd_distinct; [apply (so_inert _ _ Hso)|exact Hc]]. }
+    destruct (body_wf _ IH _ _ _ _ _ _ Wc Hso (or_intror Hent) Hd H) as [W' N'].
+    split; [exact W'|]. split; [exact N'|]. split; [exact Gg|]. split; [exact Gs|].
+    intro Hc. rewrite (body_norec_cmd ev _ (fun _ _ _ => ret tt) t route evt c (so_inert _ _ Hso) Hc) in H.
+    eapply pq_body_norec; exact H.
 Qed.
 
 (* update_task_state, provider events, well-formed calls *)
 Theorem update_task_state_wf : forall t route evt c c' r,
   WF c -> static_ok (c_spec c) (c_graph c) -> provider_event evt = true -> wellformed_call_b c t route evt = true ->
+  cmd_routes_distinct c t route ->
   update_task_state ev t route evt c = (c', r) ->
   WF c' /\ (forall x, r = Exc x -> ~ internal_cls x).
 Proof.
-  intros t route evt c c' r Wc Hso Hp Hw H. unfold update_task_state in H. rewrite uts_unfold in H.
-  exact (body_wf _ (uts_fuel_callW 2) _ _ _ _ _ _ Wc Hso (or_introl (conj Hp Hw)) H).
+  intros t route evt c c' r Wc Hso Hp Hw Hd H. unfold update_task_state in H. rewrite uts_unfold in H.
+  exact (body_wf _ (uts_fuel_callW 2) _ _ _ _ _ _ Wc Hso (or_introl (conj Hp Hw)) Hd H).
 Qed.
 
 End BodyWF.
@@ -2083,11 +2416,17 @@ Proof.
     apply (K _ _ (fun _ => RUnit) (pg_ensure_ws ev) (ps_ensure_ws ev) H).
 Qed.
 
-(* operations in scope, and what is asked of them in the state they meet *)
+(* operations in scope, and what is asked of them in the state they meet.  For a provider event, beside the call
+   being well-formed: the edges of the task to engine commands that keep its route lead to different commands
+   (cmd_routes_distinct; decidable).  A command reached by several transitions of one task is a split, and the engine
+   opens a route per edge; the clause only excludes a graph that has more edges to the command than the definition
+   has transitions naming it, or a task running on a route that already carries its own transition ids -- then the
+   same (command, route) key is queued twice and the second call finds nothing staged (TypeError; C15b example). *)
 Definition op_in_scope (c : cstate) (op : api_op) : Prop :=
   match op with
   | OpRerun _ => False
-  | OpEvent t route evt => provider_event evt = true /\ wellformed_call_b c t route evt = true
+  | OpEvent t route evt => provider_event evt = true /\ wellformed_call_b c t route evt = true /\
+                           cmd_routes_distinct c t route
   | _ => True
   end.
 
@@ -2115,8 +2454,8 @@ Proof.
   - refine (K _ _ ROffers _ H). intros c1 a E.
     split; [eapply WF_Rw; [eapply get_next_tasks_Rw; [exact Hi|exact E]|exact Wc]|].
     intros x ->. eapply ni_get_next_tasks; [exact Hev|exact E].
-  - destruct Hop as [Hp Hw]. refine (K _ _ (fun _ => RUnit) _ H). intros c1 a E.
-    eapply update_task_state_wf; [exact Hev|exact Wc|exact Hso|exact Hp|exact Hw|exact E].
+  - destruct Hop as [Hp [Hw Hd]]. refine (K _ _ (fun _ => RUnit) _ H). intros c1 a E.
+    eapply update_task_state_wf; [exact Hev|exact Wc|exact Hso|exact Hp|exact Hw|exact Hd|exact E].
   - refine (K _ _ (fun _ => RUnit) _ H). intros c1 a E.
     split; [eapply WF_Rw; [eapply render_workflow_output_Rw; [exact Hi|exact E]|exact Wc]|].
     intros x ->. eapply render_workflow_output_ni; [exact Hev|exact Wc|exact E].
@@ -2196,8 +2535,7 @@ Definition cmd_startable_b (n : string) : bool :=
 Definition static_ok_b (sp : wf_spec) (g : graph) : bool :=
   forallb (fun n => match spec_get_task sp (n_id n) with Some _ => true | None => false end) (g_nodes g) &&
   forallb (fun e => match spec_get_task sp (e_src e) with Some ts => Nat.ltb (e_ref e) (length (ts_next ts)) | None => true end
-                    && (negb (is_engine_command (e_dst e)) || cmd_startable_b (e_dst e))
-                    && Nat.leb (length (filter (fun e' => is_engine_command (e_dst e')) (g_next_transitions g (e_src e)))) 1)
+                    && (negb (is_engine_command (e_dst e)) || cmd_startable_b (e_dst e)))
           (g_edges g) &&
   inert_b g.
 
@@ -2208,19 +2546,29 @@ Proof.
   - intros t Ht. unfold g_has_task, g_get_node in Ht. destruct (find (fun n => String.eqb (n_id n) t) (g_nodes g)) as [n|] eqn:E; [|discriminate].
     apply find_some in E. destruct E as [E1 E2]. apply String.eqb_eq in E2. subst t. specialize (Hn _ E1).
     destruct (spec_get_task sp (n_id n)); [discriminate|discriminate Hn].
-  - intros e ts Hin Hts. specialize (He _ Hin). apply andb_prop in He; destruct He as [He _]. apply andb_prop in He; destruct He as [He _].
+  - intros e ts Hin Hts. specialize (He _ Hin). apply andb_prop in He; destruct He as [He _].
     rewrite Hts in He. apply Nat.ltb_lt; exact He.
   - apply inert_b_sound; exact Hinert.
-  - intros e Hin Hc. specialize (He _ Hin). apply andb_prop in He; destruct He as [He _]. apply andb_prop in He; destruct He as [_ He].
+  - intros e Hin Hc. specialize (He _ Hin). apply andb_prop in He; destruct He as [_ He].
     rewrite Hc in He. cbn [negb orb] in He. unfold cmd_startable_b in He. unfold cmd_startable.
     destruct (engine_event (e_dst e)) as [[| | |name st]|]; try discriminate.
     destruct (task_process_event empty_ws (fresh_rec (e_dst e) 0) (EvEngine name st)) as [[s|]|] eqn:Et; try discriminate.
     exists name, st, s. split; [reflexivity|exact Et].
-  - intros t. destruct (g_next_transitions g t) as [|e l] eqn:E; [simpl; lia|].
-    assert (Hin : In e (g_next_transitions g t)) by (rewrite E; left; reflexivity).
-    destruct (In_next_transitions _ _ _ Hin) as [Hedge Hsrc]. specialize (He _ Hedge). apply andb_prop in He; destruct He as [_ He].
-    rewrite Hsrc, E in He. apply Nat.leb_le; exact He.
 Qed.
+
+Fixpoint str_nodup_b (l : list string) : bool :=
+  match l with [] => true | x :: l' => negb (string_in x l') && str_nodup_b l' end.
+Lemma str_nodup_b_sound : forall l, str_nodup_b l = true -> NoDup l.
+Proof.
+  induction l as [|x l IH]; simpl; intro H; [constructor|]. apply andb_prop in H; destruct H as [H1 H2].
+  constructor; [|apply IH; exact H2]. intro Hin. apply negb_true_iff in H1.
+  assert (T : string_in x l = true); [|congruence].
+  unfold string_in. apply existsb_exists. exists x. split; [exact Hin|apply String.eqb_refl].
+Qed.
+Definition cmd_routes_distinct_b (c : cstate) (t : string) (route : nat) : bool :=
+  str_nodup_b (map e_dst (cmd_edges_on_route c t route)).
+Lemma cmd_routes_distinct_b_sound : forall c t route, cmd_routes_distinct_b c t route = true -> cmd_routes_distinct c t route.
+Proof. intros c t route H. apply str_nodup_b_sound; exact H. Qed.
 
 Definition wf_ctx_ok_b (w : wstate) (l : list nat) : bool :=
   nat_in 0 l && forallb (fun i => Nat.ltb i (length (contexts w))) l.
@@ -2270,7 +2618,7 @@ Qed.
 Definition op_in_scope_b (c : cstate) (op : api_op) : bool :=
   match op with
   | OpRerun _ => false
-  | OpEvent t route evt => provider_event evt && wellformed_call_b c t route evt
+  | OpEvent t route evt => provider_event evt && wellformed_call_b c t route evt && cmd_routes_distinct_b c t route
   | _ => true
   end.
 
@@ -2285,7 +2633,8 @@ Lemma hist_in_scope_b_sound : forall ops c, hist_in_scope_b ops c = true -> hist
 Proof.
   induction ops as [|op ops IH]; intros c H; simpl in *; [exact I|].
   apply andb_prop in H; destruct H as [H1 H2]. split; [|apply IH; exact H2].
-  destruct op; simpl in *; try exact I; try discriminate. apply andb_prop in H1; exact H1.
+  destruct op; simpl in *; try exact I; try discriminate. apply andb_prop in H1; destruct H1 as [H1 Hd].
+  apply andb_prop in H1; destruct H1 as [Hp Hw]. split; [exact Hp|]. split; [exact Hw|apply cmd_routes_distinct_b_sound; exact Hd].
 Qed.
 End HistB.
 
